@@ -2,4 +2,4 @@ From Coq Require Import Extraction ExtrOcamlBasic.
 From JV Require Import Base.Bytes Base.Dec Model.Wire Model.ClientMgr Model.HttpBatch.
 Extraction Language OCaml.
 Extraction "../modelrun/gen/httpbatch_model.ml" Byte.to_N Byte.of_N print_N print_Z digits_val
-  Wire.ser_response HttpBatch.http_reply HttpBatch.http_mk_id HttpBatch.count_ok HttpBatch.count_err.
+  Wire.ser_response HttpBatch.http_reply HttpBatch.http_mk_id HttpBatch.count_ok HttpBatch.count_err HttpBatch.http_single.
